@@ -454,6 +454,74 @@ func checkC06(w *World, r *Recorder) propInfo {
 			}
 		}
 	}
+	// … and no per-entry consumer (a function that takes the remaining input
+	// and hands back what is left after one item) reserves memory in
+	// proportion to the *remaining* input: called once per entry, that adds up
+	// to entries × input length
+	for _, fn := range sortedFuncs(reach) {
+		if !inScope(fn) || fn.Blocks == nil {
+			continue
+		}
+		var in *ssa.Parameter
+		for _, prm := range fn.Params {
+			if isByteSlice(prm.Type()) {
+				in = prm
+			}
+		}
+		res := fn.Signature.Results()
+		returnsRest := false
+		for i := 0; i < res.Len(); i++ {
+			if isByteSlice(res.At(i).Type()) {
+				returnsRest = true
+			}
+		}
+		if in == nil || !returnsRest {
+			continue
+		}
+		var fromInput func(v ssa.Value, d int) bool
+		fromInput = func(v ssa.Value, d int) bool {
+			if d > 6 || v == nil {
+				return false
+			}
+			if v == ssa.Value(in) {
+				return true
+			}
+			switch x := v.(type) {
+			case *ssa.Slice:
+				return fromInput(x.X, d+1)
+			case *ssa.Extract:
+				// what a consumer call leaves of the input it was handed
+				if c, ok := x.Tuple.(*ssa.Call); ok && isByteSlice(x.Type()) {
+					for _, a := range c.Call.Args {
+						if isByteSlice(a.Type()) && fromInput(a, d+1) {
+							return true
+						}
+					}
+				}
+			case *ssa.Phi:
+				for _, e := range x.Edges {
+					if e != v && fromInput(e, d+1) {
+						return true
+					}
+				}
+			}
+			return false
+		}
+		for _, b := range fn.Blocks {
+			for _, ins := range b.Instrs {
+				ms, ok := ins.(*ssa.MakeSlice)
+				if !ok {
+					continue
+				}
+				for _, sz := range []ssa.Value{ms.Len, ms.Cap} {
+					if arg, ok := lenOperand(sz); ok && fromInput(arg, 0) {
+						nA5++
+						r.Refute("C06-A5", fmt.Sprintf("%s#reserve-remaining", fnKey(fn)), w.InstrPos(ms), "a per-item consumer (it takes the remaining input and returns what is left) allocates in proportion to the whole remaining input: called once per entry, the reservations add up to entries × input length, not to a fixed multiple of the input")
+					}
+				}
+			}
+		}
+	}
 	r.Count("accumulating_loops", nA5)
 	r.Prove("C06-A5", "scan", "-", fmt.Sprintf("%d decode-reachable functions scanned for loop-carried accumulation through superlinear builders", len(reach)), false)
 
